@@ -148,14 +148,78 @@ class proceed:
         self.fn = fn
 
     def __enter__(self):
-        self.curr = HandlerCollection.current.get() or HandlerCollection([])
-        self.interactor, new = self.curr.proceed(self.fn)
-        self.reset = HandlerCollection.current.set(new)
+        outer = HandlerCollection.current.get()
+        self.curr = outer or HandlerCollection([])
+        self.interactor, inner = self.curr.proceed(self.fn)
+        # The collection to go back to, the one that is current while fn runs
+        self.interactor.outer = outer
+        self.interactor.inner = inner
+        HandlerCollection.current.set(inner)
         return self.interactor
 
     def __exit__(self, typ, exc, tb):
-        HandlerCollection.current.reset(self.reset)
+        HandlerCollection.current.set(self.interactor.outer)
         self.interactor.exit()
+
+    @staticmethod
+    def suspend(interactor):
+        """The function is a generator that is about to yield.
+
+        Its caller runs while the generator is suspended: the handlers that
+        were current when the generator was last resumed are put back.
+        """
+        HandlerCollection.current.set(interactor.outer)
+
+    @staticmethod
+    def resume(interactor):
+        """The generator is resumed by next(), send(), throw() or close()."""
+        # This is where to go back to at the next yield, or at the end
+        interactor.outer = HandlerCollection.current.get()
+        HandlerCollection.current.set(interactor.inner)
+
+    @staticmethod
+    def yielding(interactor, value):
+        """Yield value on behalf of a generator (``yield from`` this)."""
+        proceed.suspend(interactor)
+        try:
+            return (yield value)
+        finally:
+            proceed.resume(interactor)
+
+
+    @staticmethod
+    def delegating(interactor, iterable):
+        """Yield from iterable on behalf of a generator (``yield from`` this).
+
+        This is what ``yield from iterable`` does (see PEP 380), with each
+        item yielded through :meth:`yielding`.
+        """
+        it = iter(iterable)
+        try:
+            item = next(it)
+        except StopIteration as stop:
+            return stop.value
+        while True:
+            try:
+                sent = yield from proceed.yielding(interactor, item)
+            except GeneratorExit:
+                close = getattr(it, "close", None)
+                if close is not None:
+                    close()
+                raise
+            except BaseException as exc:
+                throw = getattr(it, "throw", None)
+                if throw is None:
+                    raise
+                try:
+                    item = throw(exc)
+                except StopIteration as stop:
+                    return stop.value
+            else:
+                try:
+                    item = next(it) if sent is None else it.send(sent)
+                except StopIteration as stop:
+                    return stop.value
 
 
 class BaseOverlay:
